@@ -176,6 +176,10 @@ pub fn instances(vars: &[VarDecl], level: u8) -> Vec<Con> {
         // abs
         out.push(Con::Abs(View::id(x), View::id(y)));
         out.push(Con::Abs(View::new(x, -1, 0), View::id(y)));
+        out.push(Con::Abs(View::new(x, -2, 1), View::id(y)));
+        out.push(Con::Abs(View::id(x), View::new(y, -2, 3)));
+        out.push(Con::Max(vec![View::id(x)], View::new(y, -2, 0)));
+        out.push(Con::Min(vec![View::new(x, -3, 0)], View::new(y, 1, -1)));
         if full {
             out.push(Con::Abs(View::new(x, 2, -1), View::new(y, 1, 1)));
             out.push(Con::Abs(View::id(x), View::new(y, -1, 0)));
@@ -212,6 +216,18 @@ pub fn instances(vars: &[VarDecl], level: u8) -> Vec<Con> {
         }
         out.push(Con::Max(vec![View::id(x), View::id(y)], View::id(z)));
         out.push(Con::Min(vec![View::id(x), View::id(y)], View::id(z)));
+        // views with scale <= -2 (and odd offsets) in propagators that set both kinds of bounds on
+        // their arguments: bounds have to be rounded in the right direction when mapped back
+        out.push(Con::Max(vec![View::id(x), View::id(y)], View::new(z, -2, -1)));
+        out.push(Con::Min(vec![View::id(x), View::new(y, -2, 0)], View::id(z)));
+        out.push(Con::Min(vec![View::new(x, -3, 1), View::id(y)], View::new(z, 2, 0)));
+        out.push(Con::Times(View::id(x), View::id(y), View::new(z, -2, 0)));
+        out.push(Con::Times(View::new(x, -2, 1), View::id(y), View::id(z)));
+        out.push(Con::Element {
+            index: View::id(x),
+            array: vec![View::id(y), View::new(y, -2, -1)],
+            rhs: View::new(z, -2, 1),
+        });
         out.push(Con::Max(vec![View::new(x, -1, 0), View::id(y)], View::new(z, 1, 1)));
         out.push(Con::Min(vec![View::id(x), View::new(y, 2, 0)], View::new(z, -1, 0)));
         out.push(Con::AllDiff(vec![View::id(x), View::id(y), View::id(z)]));
